@@ -49,7 +49,9 @@ ITER1 = lambda y, b='typing.Iterator': {'base': b, 'args': [y], 'quoted': False}
 # ------------------------------------------------------------------------------------------------ annotations -> source
 
 def ann_src(a):
-    b, args = a['base'], [TY_SRC[t] for t in a['args']]
+    # 'fwd': the slot type str is spelled as a FORWARD REFERENCE to a name of the defining module (its prelude binds MyStr = str):
+    # same conformance table, but the value checks of the wrapper need that module's names to resolve it
+    b, args = a['base'], [("'MyStr'" if a.get('fwd') and t == 'str' else TY_SRC[t]) for t in a['args']]
     special = {'int': 'int', 'str': 'str', 'none': 'None', 'object': 'object', 'typing.Any': 'Any',
                'typing.Optional': 'Optional[Generator[int, None, None]]', 'typing.Union': 'Union[Iterator[int], int]'}
     if b in special:
@@ -62,7 +64,7 @@ def ann_src(a):
 
 
 def ann_key(a):
-    return (a['base'], tuple(a['args']), bool(a['quoted']))
+    return (a['base'], tuple(a['args']), bool(a['quoted']), bool(a.get('fwd')))
 
 
 BODY = '''    J = _S['J']
@@ -113,6 +115,7 @@ PRELUDE = '''from typing import *
 import collections.abc
 from pedantic import pedantic, pedantic_class
 _S = {'script': [], 'J': []}
+MyStr = str
 '''
 
 
@@ -586,6 +589,14 @@ def gen_cases(rng, tier):
             for sc in few_scripts:
                 for ops in few_ops:
                     out.append(mk(ann, sc, ops, kind, 'ann'))
+    # 2b. slot types spelled as forward references to names of the defining module (yield / send / return position)
+    for ann in (dict(GEN3('str', 'str', 'str'), fwd=True), dict(ITER1('str'), fwd=True), dict(GEN3('int', 'int', 'str'), fwd=True),
+                dict(GEN3('str', 'none', 'int'), fwd=True)):
+        for kind in KINDS:
+            for sc in [[('yield', S, 0), ('yield', I, 0)], [('yield', S, 0), ('return', S)], [('return', S)], [('yield', S, 1), ('yield', S, 0), ('return', I)]]:
+                for ops in [[('next',), ('next',)], [('next',), ('send', ['str', 4]), ('next',)], [('next',), ('send', ['int', 3]), ('next',)],
+                            [('next',), ('throw', 7), ('next',)], [('next',), ('next',), ('next',)]]:
+                    out.append(mk(ann, sc, ops, kind, 'fwd'))
     # 3. seeded random longer interactions
     pool = ann_pool(rng, 50 if quick else 400)
     for _ in range(6000 if quick else 60000):
